@@ -260,7 +260,7 @@ var blobSizes = []int{0, 1, 2, 17, 64, 255, 4096, 4097, 65537, 300, 1000}
 // script is the offer sequence of a normal session.
 func (s *session) script() {
 	rng := s.rng
-	nTrue := s.r.Pick(4, 12)
+	nTrue := s.r.Pick(6, 12)
 	seen := map[blob.Ref]bool{}
 	present := func(of *offer) {
 		switch s.path {
